@@ -169,7 +169,7 @@ UNF = "Model.Ctx.jAddScalar, Model.Ctx.jSubScalar, Model.Ctx.jRSubScalar, Model.
 
 def main():
     repo = Path(sys.argv[sys.argv.index('--repo') + 1]) if '--repo' in sys.argv else Path('/repo')
-    out = ["import Model.Numba\n\n/-! GENERATED from the current source by translate/numba2lean.py — do not edit -/\n"
+    out = ["import Model.Numba\nimport Proofs.NumbaEq\n\n/-! GENERATED from the current source by translate/numba2lean.py — do not edit -/\n"
            "set_option linter.unusedVariables false\nset_option linter.unusedSimpArgs false\nnamespace GenNumba\nopen Model\n\n"]
     status, thms = {}, []
     tree = ast.parse((repo / 'clifford' / 'numba' / '_multivector.py').read_text())
@@ -226,6 +226,92 @@ def main():
         status['nb_pow'] = dict(status='refused', reason=str(r))
     except Exception as r:
         status['nb_pow'] = dict(status='refused', reason=repr(r)[:200])
+    # ---- ga_call: grade selection, literal and runtime paths
+    try:
+        f = funcs['ga_call']
+        b = [x for x in f.body if not (isinstance(x, ast.Expr) and isinstance(x.value, ast.Constant))]
+        if len(b) != 2 or ast.unparse(b[0]) != ("if len(args) == 1 and isinstance(args[0], (types.StarArgTuple, types.StarArgUniTuple)):\n    args = args[0].types"):
+            raise Refuse("ga_call: varargs normalisation")
+        g = b[1]
+        if not (isinstance(g, ast.If) and ast.unparse(g.test) == 'len(args) > 0' and not g.orelse and len(g.body) == 2):
+            raise Refuse("ga_call: `if len(args) > 0:`")
+        if ast.unparse(g.body[0]) != 'grades = self.layout_type.obj._basis_blade_order.grades':
+            raise Refuse("ga_call: grades is not the layout's grade array")
+        lit = g.body[1]
+        if not (isinstance(lit, ast.If) and ast.unparse(lit.test) == 'all((isinstance(arg, types.IntegerLiteral) for arg in args))'
+                and len(lit.orelse) == 1 and isinstance(lit.orelse[0], ast.If)
+                and ast.unparse(lit.orelse[0].test) == 'all((isinstance(arg, types.Integer) for arg in args))' and not lit.orelse[0].orelse):
+            raise Refuse("ga_call: literal / runtime dispatch")
+        copy = ['mv = self.layout.MultiVector(np.zeros_like(self.value))', 'mv.value[inds] = self.value[inds]', 'return mv']
+        lb = [ast.unparse(x) for x in lit.body]
+        if lb[:3] != ['inds = grades == args[0].literal_value', 'for arg in args[1:]:\n    inds |= grades == arg.literal_value', 'inds = inds.nonzero()'] \
+                or lb[4:] != ['return impl'] or [ast.unparse(x) for x in lit.body[3].body] != copy:
+            raise Refuse("ga_call: literal path")
+        rt = lit.orelse[0].body
+        if len(rt) != 2 or ast.unparse(rt[1]) != 'return impl' or [ast.unparse(x) for x in rt[0].body] != \
+                ['inds = grades == args[0]', 'for i in range(1, len(args)):\n    inds |= grades == args[i]'] + copy:
+            raise Refuse("ga_call: runtime path")
+        body = ("  let inds := rest.foldl (fun inds g => (Array.range a.size).map fun j => inds.getD j false || (C.grade j == g))\n"
+                "    ((Array.range a.size).map fun j => C.grade j == g0)\n"
+                "  (Array.range a.size).map fun i => if inds.getD i false then a.getD i 0 else 0\n")
+        out.append("def ga_call_literal (C : Ctx) (g0 : Nat) (rest : List Nat) (a : MV) : MV :=\n" + body +
+                   "def ga_call_runtime (C : Ctx) (g0 : Nat) (rest : List Nat) (a : MV) : MV :=\n" + body)
+        thms.append(('nb_call', "theorem nb_call_eq (C : Model.Ctx) (g0 : Nat) (rest : List Nat) (a : Model.MV) : "
+                                "GenNumba.ga_call_literal C g0 rest a = C.jCall (g0 :: rest) a ∧ GenNumba.ga_call_runtime C g0 rest a = C.jCall (g0 :: rest) a :=\n"
+                                "  ⟨NumbaEq.callBody_eq C g0 rest a, NumbaEq.callBody_eq C g0 rest a⟩\n"))
+        status['nb_call'] = dict(status='ok')
+    except Refuse as r:
+        status['nb_call'] = dict(status='refused', reason=str(r))
+    except Exception as r:
+        status['nb_call'] = dict(status='refused', reason=repr(r)[:200])
+    # ---- the overloads that re-use a Python method body or delegate to a layout function: a table read from the source
+    try:
+        table = []
+        for n_ in tree.body:
+            if not isinstance(n_, ast.FunctionDef) or not n_.decorator_list:
+                continue
+            d = n_.decorator_list[0]
+            if not (isinstance(d, ast.Call) and ast.unparse(d.func) in ('numba.extending.overload_method', 'numba.extending.overload_attribute', 'numba.extending.overload')):
+                continue
+            dk = ast.unparse(d.func).rsplit('.', 1)[1]
+            if dk == 'overload':
+                if ast.unparse(d.args[0]) != 'abs':
+                    continue
+                target = 'abs'
+            else:
+                if ast.unparse(d.args[0]) != 'MultiVectorType':
+                    raise Refuse(f"{n_.name}: not an overload on MultiVectorType")
+                target = d.args[1].value
+            body = [x for x in n_.body if not (isinstance(x, ast.Expr) and isinstance(x.value, ast.Constant))]
+            if len(body) == 1 and isinstance(body[0], ast.If) and ast.unparse(body[0].test) == 'isinstance(self, MultiVectorType)' and not body[0].orelse:
+                body = body[0].body
+            if len(body) == 1 and isinstance(body[0], ast.Return):
+                what = ast.unparse(body[0].value)
+            else:
+                pre = [ast.unparse(x) for x in body if not isinstance(x, ast.FunctionDef)]
+                impl = [x for x in body if isinstance(x, ast.FunctionDef)]
+                if len(impl) != 1 or pre[-1] != 'return impl':
+                    raise Refuse(f"{n_.name}: shape")
+                env = {}
+                for p_ in pre[:-1]:
+                    k_, v_ = p_.split(' = ', 1)
+                    env[k_] = v_.replace('self.layout_type.obj.', 'layout.')
+                ib = [ast.unparse(x) for x in impl[0].body]
+                if len(ib) != 1 or not ib[0].startswith('return '):
+                    raise Refuse(f"{n_.name}: impl is not a single return")
+                what = ib[0][7:]
+                for k_, v_ in env.items():
+                    what = what.replace(k_ + '(', v_ + '(')
+            table.append((dk, target, what))
+        table = sorted(set(table))      # definition order and repeated definitions do not matter
+        lean_list = "[" + ", ".join(f'("{a}", "{b_}", "{c}")' for a, b_, c in table) + "]"
+        out.append(f"def reuse_table : List (String × String × String) := {lean_list}\n")
+        thms.append(('nb_reuse', "theorem nb_reuse_eq : GenNumba.reuse_table = Model.numbaReuseTable := by decide\n"))
+        status['nb_reuse'] = dict(status='ok')
+    except Refuse as r:
+        status['nb_reuse'] = dict(status='refused', reason=str(r))
+    except Exception as r:
+        status['nb_reuse'] = dict(status='refused', reason=repr(r)[:200])
     out.append("end GenNumba\n\n")
     names = {}
     for name, t in thms:
